@@ -330,3 +330,10 @@ def run(ctx):
     # commit that is still applying its items (shared with C06: R-C06.6 — same defect, same seven call sites)
     from . import C06
     C06.version_change_rules(ctx, "R-C08.7")
+
+    # ---- borrowed obligations (mechanisms owned by other properties that this property's verdict also rests on)
+    # commit applies all at once: no exit between the first applied item and the publish
+    ctx.borrow("C03", ["R-C03.10"], "R-C08.8")
+    # write-ahead order of the batch commit every transaction commit goes through
+    ctx.borrow("C02", ["R-C02.1"], "R-C08.9", only_instances=["batch::WriteBatch::commit", "publish", "apply"])
+
